@@ -43,6 +43,10 @@ def measured_tensor(t):
         for k in range(1, N):
             X = np.tensordot(X, rng.normal(size=(r[k], shape[k], r[k + 1])), axes=(X.ndim - 1, 0))
         X = X.reshape(shape)
+    elif fam == "rankone":                   # outer product of random vectors (exactly rank one in every sense)
+        X = rng.normal(size=shape[0])
+        for d in shape[1:]:
+            X = np.multiply.outer(X, rng.normal(size=d))
     elif fam == "rankdeficient":             # two equal slices along every mode of size >= 2
         X = rng.normal(size=shape)
         for k in range(N):
@@ -128,7 +132,7 @@ def execute(case):
             mr = min(M.shape)
             tails.append([max(0, q(float(np.sum(s[r:mr] ** 2)) / den, scale)) for r in range(mr + 1)])
         ev["tails"] = tails
-    out = {"raised": False, "exc": "none", "about_rank": False, "ranks": [], "err2_q": 0, "fin": False}
+    out = {"raised": False, "exc": "none", "about_rank": False, "ranks": [], "err2_q": 0, "rel_q": 0, "fin": False}
     np.random.seed(case["seed"] % (2**32))       # tensor_train / tensor_ring have no random_state argument
     rspec, via = case.get("rspec", "list"), case.get("via", "function")
     ev["rspec"], ev["frac"], ev["via"] = rspec, int(case.get("frac", 0)), via
@@ -179,7 +183,10 @@ def execute(case):
         rec = np.asarray(rec).astype(np.float64)      # err^2 is measured in float64 against the float64 tensor
         if rec.shape == X.shape:
             with np.errstate(all="ignore"):
-                v = q(float(np.sum((X - rec / unit) ** 2)) / den, scale)
+                e2 = float(np.sum((X - rec / unit) ** 2))
+                v = q(e2 / den, scale)
+                relq = q(np.sqrt(e2 / nrm2) if nrm2 > 0 else 0.0, 10**12)
+                out["rel_q"] = relq if isinstance(relq, int) else 2 * 10**9
             if isinstance(v, int):
                 out["err2_q"], out["fin"] = v, True
     except Exception as ex:
@@ -205,6 +212,28 @@ MEASURED_SHAPES = [(3, 4), (5, 4), (6, 6), (3, 4, 5), (4, 4, 4), (2, 5, 3), (5, 
 
 
 QUICK_INTEGER_SHAPES = [(4, 5), (3, 4, 2), (3, 2, 2, 3), (2, 3, 2, 2, 2)]
+# vector-shaped unfoldings: modes of size 1, rank-one requests (every HOOI / TT / TR step is then the SVD of a row or column)
+VECTOR_SHAPES = [(1, 5), (4, 1), (1, 4, 1), (3, 4, 1), (1, 3, 2), (3, 4, 2), (2, 1, 3, 1)]
+
+
+def rank_one_cases(rng, shapes):
+    cases = []
+    for shape in shapes:
+        N = len(shape)
+        ten = {"op": "measured", "shape": list(shape), "fam": "rankone", "tseed": rng.randrange(2**31), "lr": 1}
+        cfgs = [{"op": "tucker", "shape": list(shape), "rank": [1] * N, "mode": 0},
+                {"op": "tucker", "shape": list(shape), "rank": list(shape), "mode": 0},
+                {"op": "tt", "shape": list(shape), "rank": [1] * (N + 1), "mode": 0},
+                {"op": "tt", "shape": list(shape), "rank": [1] + [30] * (N - 1) + [1], "mode": 0}]
+        cfgs += [{"op": "tr", "shape": list(shape), "rank": [1] * (N + 1), "mode": m} for m in range(N)]
+        for c in cfgs:
+            for j, p2 in enumerate((650, -650, -530, 400, -400, 0)):
+                for svd in ("truncated_svd", "symeig_svd"):
+                    case = {"cfg": c, "ten": ten, "svd": svd, "dtype": "float64", "pow2": p2,
+                            "iters": (0, 1, 50)[(j + len(cases)) % 3] if c["op"] == "tucker" else 0,
+                            "rspec": "list", "frac": 0, "via": ("function", "class")[j % 2]}
+                    cases.append(in_domain(case))
+    return cases
 
 
 def measured_cases(rng, reps, dtypes, shapes=MEASURED_SHAPES, fams=("generic", "integer", "lowmultilinear", "lowtt", "rankdeficient"),
@@ -249,7 +278,7 @@ def measured_cases(rng, reps, dtypes, shapes=MEASURED_SHAPES, fams=("generic", "
     return cases
 
 
-POW2S = [0, 66, 0, -66, 0, 400, 0, -400]     # every second case keeps the natural magnitude
+POW2S = [0, 66, 0, -650, 0, 400, 0, -66, 0, 650, 0, -400, 0, -530]     # every second case keeps the natural magnitude
 
 
 KNOWN_BAD = {"mode": "exclude"}      # --opt known_bad=include: also run SVDDecomp.KnownBadCombination (to re-test after a repair)
@@ -257,12 +286,10 @@ KNOWN_BAD = {"mode": "exclude"}      # --opt known_bad=include: also run SVDDeco
 
 def in_domain(case):
     """Steers a drawn case into SVDDecomp's domain (pow2 needs float64; SVDDecomp.KnownBadCombination)."""
-    if KNOWN_BAD["mode"] == "include":
-        if case["dtype"] != "float64":
-            case["pow2"] = 0
-        return case
     if case["dtype"] != "float64":
         case["pow2"] = 0
+    if case["svd"] == "symeig_svd" and abs(case.get("pow2", 0)) > 400:      # SVDDecomp.Pow2OK: the Gram matrix must be representable
+        case["pow2"] = 400 if case["pow2"] > 0 else -400
     return case
 
 
@@ -333,6 +360,7 @@ def run(chk, opts):
     else:
         # quick: a small dense slice of the measured tier -- integer tensors in every dtype (integer arrays must decompose like floats)
         cases += measured_cases(rng, 1, dtypes, shapes=QUICK_INTEGER_SHAPES, fams=("integer",), all_dtypes=True)
+    cases += rank_one_cases(rng, VECTOR_SHAPES)
     for k, case in enumerate(cases):
         case["id"] = "C09/%s/%s/%06d" % ("x" if k < n_exact else "m", case["cfg"]["op"], k)
         case["seed"] = rng.randrange(2**31)
